@@ -294,6 +294,10 @@ func opAugment(r *rand.Rand, n int, tier string, seed int64) {
 				all = append(all, fr2{f, file2, "example.com/aug/other", false})
 			}
 		}
+		// recursion: the same function or method in several frames of the stack
+		for rep := r.Intn(3); rep > 0; rep-- {
+			all = append(all, all[r.Intn(len(all))])
+		}
 		for k, x := range all {
 			f := x.f
 			var words []uint64
